@@ -54,6 +54,11 @@ func ReadFrom(r io.Reader) (*Index, error) {
 	if int32(idx.depth) < 0 {
 		return nil, errors.New("csi: invalid index depth value")
 	}
+	// Bin numbers are 32 bit and positions 64 bit: deeper or wider
+	// geometries cannot be represented (and make queries unbounded).
+	if idx.depth >= 32/nextBinShift || idx.minShift >= 64 || idx.minShift+idx.depth*nextBinShift >= 64 {
+		return nil, errors.New("csi: index geometry out of range")
+	}
 	var n int32
 	err = binary.Read(r, binary.LittleEndian, &n)
 	if err != nil {
